@@ -8,6 +8,7 @@ import (
 	"regexp"
 	"sort"
 	"strings"
+	"unicode/utf8"
 
 	"github.com/magiconair/properties"
 	"github.com/rkosegi/yaml-toolkit/common"
@@ -35,13 +36,44 @@ var c16KeyRe = regexp.MustCompile(`^[A-Za-z0-9_-]+(\.[A-Za-z0-9_-]+)*$`)
 // the codec never uses), so they belong to the domain of the round-trip clauses.
 var c16ValRe = regexp.MustCompile(`^[A-Za-z0-9_.${}-]*$`)
 
+// c16ValOK: a plain value of the domain.  Over c16ValRe, and — "plain string value ... that needs no escaping" read on
+// the format — blanks (space, tab) anywhere but in front (only blanks in FRONT of a value are insignificant in
+// properties text; inner and trailing ones belong to the value and are written as they are), a few more ASCII
+// punctuation characters that have no meaning inside a value (',', ';', '/', '@', '+', '*', '(', ')', '[', ']', '|',
+// '~', '%', '&', '?', '<', '>', apostrophe, '"', '^'), NBSP behind the first character, and non-ASCII letters and symbols (c16PlainRune).
+func c16ValOK(v string) bool {
+	if c16ValRe.MatchString(v) {
+		return true
+	}
+	if !utf8.ValidString(v) {
+		return false
+	}
+	for i, r := range v {
+		switch {
+		case r == ' ' || r == '\t' || r == 0xA0:
+			if i == 0 {
+				return false
+			}
+		case r < 0x80:
+			if !c16ValRe.MatchString(string(r)) && !strings.ContainsRune(",;/@+*()[]|~%&?<>'\"^", r) {
+				return false
+			}
+		default:
+			if !c16PlainRune(r) {
+				return false
+			}
+		}
+	}
+	return true
+}
+
 func init() {
 	register(&Prop{ID: "C16", Run: c16Run,
-		Rule: "key sets built from a pool of 14 path-safe segments, several of which are proper string prefixes of others (a, ab, abc, a1, a-b, k, k1 …; the same pool at every level, so that sibling segments related by string prefix but not by dotted prefix are frequent), 1-4 segments per key, 0-8 keys; three streams: prefix-free sets (conflicting keys removed), sets with deliberately added dotted prefixes / extensions of present keys, unconstrained sets; values from a pool of strings over [A-Za-z0-9_.-] incl. the empty string, and in one case out of three also values over [A-Za-z0-9_.${}-] shaped like placeholder expressions: ${key} naming the own key, another key of the set, an undefined key, rings of keys naming each other, nested and repeated ${…}, unclosed ${, and stray $ { } characters; line order of the rendered text shuffled. Kind dots (repeated-decode clause only, 'whatever the keys'): such a set plus 1-3 keys with a leading / trailing / doubled separator (k. .k .k. a..b ..k k.. and the keys . .. ...), most of them next to the same key without the stray separator and with a different value; 50 decodes through FromReader (observed through Children and AsMap, not Flatten) and 50 through props.DecoderFn alone must give one result. Kind big (direct predicates only, a fixed handful per run): prefix-free sets described compactly as blocks of pairs b<i>.s<j mod 41>.k<j> = <j>_<i>_padding with a common value length, rendered text between 64 KiB and 6 MiB per run (one below 1 MiB, one of 1.1-2.6 MiB and one of 4.2-6 MiB with tens of thousands of ordinary pairs, one with a few lines longer than 64 KiB each), decoded through FromReader from a strings.Reader, from a plain io.Reader handing out 4093-byte pieces and with the provider's decoder, through props.DecoderFn alone, FromProperties, Unflatten, and written by both encoders and read back - every result compared pair by pair with the set. Stream deep (kind kv): key sets shaped like a deep tree - a first key of 4-10 segments and 1-7 further keys, each keeping a prefix of an earlier key (often all but its last 1-3 segments) and continuing with 1-4 segments of its own, so that containers at depth 3, 5, 6, 7 and 9 have several sibling containers and leaves; 3 in 4 prefix-free. Kind edge (direct predicates only, about 90 per run): texts in which an ASCII, 2-, 3- or 4-byte UTF-8 character of a plain value (non-ASCII letters and symbols need no escaping) starts 0 ... len+2 bytes before byte offset 512 / 4 KiB / 64 KiB (every placement: starting at, lying across, ending at the offset, followed by the line end at it), lies across 1 MiB, every other power of two from 256 B to 512 KiB, 4093, 8186, 65521 and a few round numbers; with nothing after that pair (total text size = offset -1 / +0 / +1) or further pairs after it; filler values with or without non-ASCII characters; same predicates as kind big. History: in kinds kv / big / edge every decode is preceded by a decode of an unrelated text whose reader fails after 0 / 3 / 700 bytes and every encode by encodes of an unrelated map / document whose writer fails after 0 / 3 / 17 / 40 bytes; Flatten is called twice on one document and the earlier result is read again after the later call. Thorough tier adds all 128 subsets of {a, b, a.b, a.c, a.b.c, b.a, a.b.c.d} and of {a.b, a.b.x, a.bc, a-b.x, a1, ab.x, abc} in two line orders. A case is non-trivial when it has at least two keys and at least one key with two or more segments; distinct = distinct canonical case JSON (hash).",
+		Rule: "key sets built from a pool of 14 path-safe segments, several of which are proper string prefixes of others (a, ab, abc, a1, a-b, k, k1 …; the same pool at every level, so that sibling segments related by string prefix but not by dotted prefix are frequent), 1-4 segments per key, 0-8 keys; three streams: prefix-free sets (conflicting keys removed), sets with deliberately added dotted prefixes / extensions of present keys, unconstrained sets; values from a pool of strings over [A-Za-z0-9_.-] incl. the empty string, and in one case out of three also values over [A-Za-z0-9_.${}-] shaped like placeholder expressions: ${key} naming the own key, another key of the set, an undefined key, rings of keys naming each other, nested and repeated ${…}, unclosed ${, and stray $ { } characters; in one case out of three also values as TEXT: ending in a blank or tab, with inner blanks / tabs / NBSP, differing from another value by case or a trailing blank only, boolean / null / number spellings incl. 20-30 digit strings and 2^53+1 / 2^63 / 2^64, punctuation that is syntax elsewhere (, ; / | % ( ) [ ]), non-ASCII incl. supplementary-plane characters and U+FFFD; line order of the rendered text shuffled. Kind dots (repeated-decode clause only, 'whatever the keys'): such a set plus 1-3 keys with a leading / trailing / doubled separator (k. .k .k. a..b ..k k.. and the keys . .. ...), most of them next to the same key without the stray separator and with a different value; 50 decodes through FromReader (observed through Children and AsMap, not Flatten) and 50 through props.DecoderFn alone must give one result. Kind big (direct predicates only, a fixed handful per run): prefix-free sets described compactly as blocks of pairs b<i>.s<j mod 41>.k<j> = <j>_<i>_padding with a common value length, rendered text between 64 KiB and 6 MiB per run (one below 1 MiB, one of 1.1-2.6 MiB and one of 4.2-6 MiB with tens of thousands of ordinary pairs, one with a few lines longer than 64 KiB each), decoded through FromReader from a strings.Reader, from a plain io.Reader handing out 4093-byte pieces and with the provider's decoder, through props.DecoderFn alone, FromProperties, Unflatten, and written by both encoders and read back - every result compared pair by pair with the set. Stream deep (kind kv): key sets shaped like a deep tree - a first key of 4-10 segments and 1-7 further keys, each keeping a prefix of an earlier key (often all but its last 1-3 segments) and continuing with 1-4 segments of its own, so that containers at depth 3, 5, 6, 7 and 9 have several sibling containers and leaves; 3 in 4 prefix-free. Kind edge (direct predicates only, about 90 per run): texts in which an ASCII, 2-, 3- or 4-byte UTF-8 character of a plain value (non-ASCII letters and symbols need no escaping) starts 0 ... len+2 bytes before byte offset 512 / 4 KiB / 64 KiB (every placement: starting at, lying across, ending at the offset, followed by the line end at it), lies across 1 MiB, every other power of two from 256 B to 512 KiB, 4093, 8186, 65521 and a few round numbers; with nothing after that pair (total text size = offset -1 / +0 / +1) or further pairs after it; filler values with or without non-ASCII characters; same predicates as kind big. History: in kinds kv / big / edge every decode is preceded by a decode of an unrelated text whose reader fails after 0 / 3 / 700 bytes and every encode by encodes of an unrelated map / document whose writer fails after 0 / 3 / 17 / 40 bytes; Flatten is called twice on one document and the earlier result is read again after the later call. Thorough tier adds all 128 subsets of {a, b, a.b, a.c, a.b.c, b.a, a.b.c.d} and of {a.b, a.b.x, a.bc, a-b.x, a1, ab.x, abc} in two line orders. A case is non-trivial when it has at least two keys and at least one key with two or more segments; distinct = distinct canonical case JSON (hash).",
 		Assumptions: []string{
-			"magiconair/properties agrees with the reference k=v line parser (Props.parseSimple) on keys over [A-Za-z0-9_.-] and values over [A-Za-z0-9_.${}-]* — raw values as returned by Map(), whatever its ${…} expansion self-check says (validated by the corr:C16.parse comparison on every case, not proved)",
+			"magiconair/properties agrees with the reference k=v line parser (Props.parseSimple) on keys over [A-Za-z0-9_.-] and values over [A-Za-z0-9_.${}-]* extended by blanks / tabs / NBSP behind the first character, the punctuation , ; / @ + * ( ) [ ] | ~ % & ? < > ' \" ^ and non-ASCII letters and symbols — raw values as returned by Map(), whatever its ${…} expansion self-check says (validated by the corr:C16.parse comparison on every case, not proved)",
 			"key segments are non-empty and over [A-Za-z0-9_-] (no segment ends in an index group, so AddValueAt treats every segment as a plain child name); empty segments (stray separators) occur only in the cases of kind dots, on which nothing but the repeated-decode clause is evaluated",
-			"values are plain strings that need no escaping in the properties format; kinds kv / dots / big keep them over [A-Za-z0-9_.${}-], kind edge adds non-ASCII letters and symbols (no white space, control or separator characters), written as UTF-8"}})
+			"values are plain strings that need no escaping in the properties format: no backslash, no line break, no '=' ':' '#' '!', no blank in FRONT (blanks and tabs inside and at the END of a value are part of it and need no escaping); kinds dots / big keep them over [A-Za-z0-9_.${}-], kind kv adds inner / trailing blanks, tabs and NBSP, some punctuation and non-ASCII letters and symbols, kind edge adds non-ASCII letters and symbols, written as UTF-8"}})
 	evals["C16"] = c16Eval
 	shrinkers["C16"] = c16Shrink
 }
@@ -52,6 +84,14 @@ func init() {
 // such as "ab" or "a1" follows the subtree of "a" while "a-b" precedes it.
 var c16Segs = []string{"a", "ab", "b", "abc", "a1", "a-b", "k", "k1", "c", "x-y", "z_9", "A", "0", "x-"}
 var c16Vals = []string{"", "1", "2", "x", "true", "v_1", "a-b", "x.y", "007", "Zz"}
+
+// c16TextVals: values as TEXT (one kv case in three draws from this pool as well): trailing and inner blanks (space,
+// tab, NBSP), values that differ from another one by case or by a trailing blank only, boolean / null / number
+// spellings incl. very long digit strings and precision boundaries (a decoder must hand back the text, not a typed
+// reading of it), punctuation that is syntax elsewhere, non-ASCII incl. supplementary-plane characters and U+FFFD.
+var c16TextVals = []string{"x ", "x  ", "x\t", "x \t", "a b", "a  b", "a\tb", "$ ", "[app] ", ", ", "x", "X", "true ", "TRUE", "True", "t", "F", "0", "1 ",
+	"null", "~", "-0", "+1", "1.0", "1e3", "0x1F", "9007199254740993", "9223372036854775808", "18446744073709551616", "123456789012345678901234567890",
+	"a,b;c", "(x)", "[0]", "a/b", "50%", "a|b", "x\u00a0", "h\u00e9llo", "\U0001F680", "\U0001D6FC x", "\ufffd", "\u65e5\u672c "}
 
 // values that are not placeholder expressions but contain their characters
 var c16Stray = []string{"$", "}", "{", "$}", "}{", "$$", "a$b", "{a}", "$a", "${}", "}$", "$.{", "1}", "{-"}
@@ -251,8 +291,12 @@ func c16Gen(r *rand.Rand, mode int) c16KV {
 	r.Shuffle(len(keys), func(i, j int) { keys[i], keys[j] = keys[j], keys[i] })
 	out := c16KV{Pairs: [][2]string{}}
 	expr := r.Intn(3) == 0 // one case out of three has values with placeholder syntax
+	text := r.Intn(3) == 0 // one case out of three has values from the text pool
 	for _, k := range keys {
 		v := c16Vals[r.Intn(len(c16Vals))]
+		if text && r.Intn(2) == 0 {
+			v = pick(r, c16TextVals)
+		}
 		if expr && r.Intn(2) == 0 {
 			v = c16ExprVal(r, keys, k)
 		}
@@ -405,7 +449,7 @@ func c16Eval(c *Ctx, kind string, raw []byte) {
 	// domain: unique path-safe dotted keys, values that need no escaping
 	kv := map[string]string{}
 	for _, e := range p.Pairs {
-		if !c16KeyRe.MatchString(e[0]) || !c16ValRe.MatchString(e[1]) {
+		if !c16KeyRe.MatchString(e[0]) || !c16ValOK(e[1]) {
 			return
 		}
 		if _, dup := kv[e[0]]; dup {
@@ -444,6 +488,18 @@ func c16Eval(c *Ctx, kind string, raw []byte) {
 	for _, k := range keys {
 		if strings.ContainsAny(kv[k], "${}") {
 			c.Dist("values:with-$-{-}")
+			break
+		}
+	}
+	for _, k := range keys {
+		if v := kv[k]; strings.HasSuffix(v, " ") || strings.HasSuffix(v, "\t") {
+			c.Dist("values:ending-in-a-blank")
+			break
+		}
+	}
+	for _, k := range keys {
+		if !c16ValRe.MatchString(kv[k]) {
+			c.Dist("values:text(blanks/punctuation/non-ASCII)")
 			break
 		}
 	}
